@@ -120,6 +120,9 @@ ELEMENTS = [
     ("chord", el("hit", F(0), 4)),
     ("hit@11/12", el("hit", F(4) + F(11, 12), 2)),
     ("hold-short@1/96", el("hold", F(9) + F(1, 96), 3, F(1, 48))),
+    ("hit@17/7-lane1", el("hit", F(17, 7), 1)),
+    ("hit@15/11-lane2", el("hit", F(15, 11), 2)),
+    ("hit@30/11+1/3-lane3", lambda doc, slot: (el("hit", F(30, 11), 3)(doc, slot), el("hit", F(1, 3), 3)(doc, slot))),
 ]
 
 
